@@ -1519,3 +1519,122 @@ Proof.
       destruct (inv_word_live s x I Hw H) as (_ & _ & _ & Hn & _). congruence.
   - intros [x Hx]. apply (inv_accepted_value s i I Hall Hhs Hk). exists x. apply received_holds; assumption.
 Qed.
+
+(* ------------------------------------------------------------------------------------------ *)
+(* the theorems, for all programs and all schedules                                             *)
+
+Definition reach (hsb : bool) (prog : list tkind) (sched : list nat) : st :=
+  fst (run step sched (init hsb prog, [])).
+
+Lemma reach_hs hsb prog sched : hs (reach hsb prog sched) = hsb.
+Proof. exact (proj1 (proj2 (const_reachable hsb prog sched))). Qed.
+
+Lemma forallb_false {A} (f : A -> bool) l : forallb f l = false -> exists x, In x l /\ f x = false.
+Proof.
+  induction l as [|a l IH]; simpl; [discriminate|]. destruct (f a) eqn:E; simpl.
+  - intros H. destruct (IH H) as [x [Hi Hf]]. exists x. auto.
+  - intros _. exists a. auto.
+Qed.
+
+Theorem each_once : forall hsb prog sched k, length (delivered (reach hsb prog sched) k) <= 1.
+Proof. intros. apply inv_each_once, inv_reachable. Qed.
+
+Theorem payload_to_exactly_one : forall hsb prog sched, let s := reach hsb prog sched in
+  (forall p x x', received s x p -> received s x' p -> x = x') /\
+  (forall x p p', In (payload_res s p) (delivered s x) -> In (payload_res s p') (delivered s x) -> p = p') /\
+  (forall x, length (delivered s x) <= 1).
+Proof.
+  intros hsb prog sched s. pose proof (inv_reachable hsb prog sched) as I. fold (reach hsb prog sched) in I.
+  split; [|split].
+  - intros p x x'. apply inv_payload_unique. exact I.
+  - intros x p p'. apply inv_one_payload. exact I.
+  - intros x. apply inv_each_once. exact I.
+Qed.
+
+Theorem call_value_iff_accepted : forall prog sched, let s := reach false prog sched in
+  forall i, is_caller_kind (kd s i) = true ->
+    (In RValue (delivered s i) -> accepted s i) /\
+    (In RDone (delivered s i) -> ~ accepted s i) /\
+    (forall x r, slot s x = Some (payload_res s i) -> In r (delivered s x) -> r = payload_res s i) /\
+    (all_done s = true -> (delivered s i = [RValue] <-> exists x, received s x i)).
+Proof.
+  intros prog sched s i Hk. pose proof (invall_reachable false prog sched) as [I I6].
+  fold (reach false prog sched) in I, I6. pose proof (reach_hs false prog sched) as Hhs.
+  split; [|split; [|split]].
+  - apply inv_value_accepted; assumption.
+  - apply inv_done_untouched; assumption.
+  - intros x r. apply inv_acceptor_delivers_payload; assumption.
+  - intros Had. apply inv_value_iff_received; [split; assumption|apply all_done_spec; assumption|assumption|assumption].
+Qed.
+
+(* the tree as it is: the hop sees the final receiver's stop token *)
+Theorem call_value_iff_accepted_refuted : exists prog sched, let s := reach true prog sched in
+  is_caller_kind (kd s 0) = true /\ delivered s 0 = [RDone] /\ slot s 1 = Some (RGot 0) /\
+  delivered s 1 = [RGot 0] /\ accepted s 0 /\ received s 1 0 /\ all_done s = true.
+Proof.
+  exists [TCall; TAccept; TStop 0], [2; 1;1;1;1;1; 0;0;0;0;0;0;0;0;0;0;0;0].
+  vm_compute. repeat split; try reflexivity.
+  - exists 1. left. reflexivity.
+  - left. left. reflexivity.
+Qed.
+
+(* the same program and schedule with the hop made unstoppable *)
+Theorem call_value_iff_accepted_fixed_witness :
+  let s := reach false [TCall; TAccept; TStop 0] [2; 1;1;1;1;1; 0;0;0;0;0;0;0;0;0;0;0;0] in
+  delivered s 0 = [RValue] /\ delivered s 1 = [RGot 0] /\ all_done s = true.
+Proof. vm_compute. repeat split; reflexivity. Qed.
+
+Theorem cancel_leaves_other_waiting : forall prog sched, let s := reach false prog sched in
+  (forall i, is_caller_kind (kd s i) = true -> In RDone (delivered s i) -> ~ accepted s i) /\
+  (forall j p, kd s j = TAccept -> In RDone (delivered s j) -> slot s j <> Some (payload_res s p)) /\
+  (forall k, w s = word_of s k -> w s <> WIdle ->
+     party s k = true /\ ccomp s k = false /\ delivered s k = [] /\ slot s k = None /\ stk s k <> init_stack) /\
+  (all_done s = true -> forall k, party s k = true -> stopreq s k = true -> length (delivered s k) = 1).
+Proof.
+  intros prog sched s. pose proof (inv_reachable false prog sched) as I. fold (reach false prog sched) in I.
+  pose proof (reach_hs false prog sched) as Hhs.
+  split; [|split; [|split]].
+  - intros i. apply inv_done_untouched; assumption.
+  - intros j p. apply inv_accept_done_took_nothing; assumption.
+  - intros k. apply inv_word_live; assumption.
+  - intros Had k. apply inv_stop_completes; [assumption|apply all_done_spec; assumption].
+Qed.
+
+Theorem try_only_if_counterpart_waiting : forall hsb prog sched, let s := reach hsb prog sched in
+  (forall t, kd s t = TTryCall ->
+     (tres s t = Some RValue -> exists j, holds s j t /\ (kd s j = TAccept \/ kd s j = TTryAccept)) /\
+     (tres s t = Some RDone -> forall x, ~ holds s x t)) /\
+  (forall t i, is_caller_kind (kd s i) = true -> tres s t = Some (payload_res s i) ->
+     slot s i = None /\ (ccomp s i = true \/ ptc s i >= 1) /\ (hs s = false -> ~ In RDone (delivered s i))).
+Proof.
+  intros hsb prog sched s. pose proof (inv_reachable hsb prog sched) as I. fold (reach hsb prog sched) in I.
+  split.
+  - intros t. apply inv_try_call. exact I.
+  - intros t i Hk Ht. apply (inv_taken_caller s i t I Hk). right. exact Ht.
+Qed.
+
+Theorem no_deadlock : forall hsb prog sched, let s := reach hsb prog sched in
+  aborted s = false -> all_done s = false -> exists t, step t s <> None.
+Proof.
+  intros hsb prog sched s Hab Had. apply inv_progress; [apply inv_reachable|exact Hab|].
+  unfold all_done in Had. destruct (forallb_false _ _ Had) as [t [_ Ht]]. exists t.
+  unfold stack_empty in Ht. destruct (stk s t); [discriminate|discriminate].
+Qed.
+
+Theorem terminal_states : forall hsb prog sched, let s := reach hsb prog sched in
+  all_done s = true ->
+  (forall k, party s k = true ->
+     (length (delivered s k) = 1 /\ w s <> word_of s k) \/
+     (w s = word_of s k /\ delivered s k = [] /\ stopreq s k = false)) /\
+  (forall i j, is_caller_kind (kd s i) = true -> kd s j = TAccept ->
+     length (delivered s i) = 1 \/ length (delivered s j) = 1).
+Proof.
+  intros hsb prog sched s Had. pose proof (inv_reachable hsb prog sched) as I. fold (reach hsb prog sched) in I.
+  pose proof (all_done_spec s I Had) as Hall. split.
+  - apply inv_terminal; assumption.
+  - intros i j. apply inv_rendezvous; assumption.
+Qed.
+
+Theorem never_terminates_if_one_each : forall hsb prog sched,
+  one_caller (init hsb prog) -> one_acceptor (init hsb prog) -> aborted (reach hsb prog sched) = false.
+Proof. intros hsb prog sched. apply no_abort. Qed.
